@@ -11,6 +11,10 @@ CHECK = {
     "level_note": "bounded liveness under a scheduler the harness owns: 'eventually' is 'within B deliveries'; job bodies run to their gate immediately, what is generated is the delivery order; two jobs of the same kind in flight are impossible by construction of the running flags",
     "assumptions": [],
     "extra_builds": [{"pkg": "internal/verif/convbin", "out": "convbin"}],
+    "rewrites": [
+        # reassembly snapshots after 4 packets instead of 100000: the scenarios have a few dozen packets
+        {"file": "internal/index/builder/builder.go", "pattern": r">= 100_000\b", "replacement": ">= 4"},
+    ],
     "campaigns": [
         {"test": "TestVerifC09", "checks": {"quick": 800, "thorough": 40000}, "steps": 40, "shrinktime": "90s", "death_is_violation": True,
          "timeout": {"quick": 600, "thorough": 5400}},
